@@ -1,4 +1,5 @@
 pub mod c01;
+pub mod c02;
 pub mod c03;
 pub mod c04;
 pub mod c10;
@@ -12,6 +13,7 @@ use crate::engine::Property;
 pub fn all() -> Vec<Box<dyn Property>> {
     vec![
         Box::new(c01::C01),
+        Box::new(c02::C02),
         Box::new(c03::C03::new()),
         Box::new(c04::C04),
         Box::new(refprops::c05()),
